@@ -338,4 +338,110 @@ example : (expandPaths (worldOf depthWitness [['d']]) ['r']).toOption = some [] 
       = ["r.a.b.c.d".toList] := by
   decide +kernel
 
+/-! ## the query memo of `Nodes` is transparent
+
+`memoKey` is GENERATED from the f-string keys of `query.py` on every run (`Tranp/Generated/NodesMemo.lean`); `runQuery` is
+`Memoize.get` around the memo-free `evalQuery`, `NState` the instance cache plus the memo of one `Nodes` instance. -/
+
+/-- Resolving a list of paths (what `children` / `siblings` / `expand` do with their result) gives the same classes from
+    every reachable instance cache as from the empty one. -/
+theorem resolve_list_order (w : World) (insts : List (Str × Str)) (hr : Reachable w insts) (ps : List Str) :
+    (resolvePaths w insts ps).1 = (resolvePaths w [] ps).1 :=
+  (resolvePaths_pure w ps insts (reachable_ok w insts hr)).1
+
+/-- The generated memo keys determine the query: two queries filed under the same key are the same query (for
+    `ancestor.{via}#{tag}` provided `via` is free of `#`, see `memo_key_counterexample`). A query memoised under another
+    query's key — e.g. `siblings` under `children.{via}` — makes this fail to check. -/
+theorem memo_keys_injective (q1 q2 : Query) (k : Str) (h1 : memoKey q1 = some k) (h2 : memoKey q2 = some k)
+    (s1 : q1.keySafe) (s2 : q2.keySafe) : q1 = q2 :=
+  memoKey_inj q1 q2 k h1 h2 s1 s2
+
+example : memoKey (.children ['r']) = some "children.r".toList ∧ memoKey (.siblings ['r']) = none ∧
+    memoKey (.ancestor ['r'] ['t']) = some "ancestor.r#t".toList ∧ (Query.ancestor ['r'] ['t']).keySafe := by
+  decide +kernel
+
+/-- Memo transparency: on one `Nodes` instance, after ANY history of queries (memoised or not, failing or not), every
+    query returns exactly what the memo-free evaluation on a fresh resolver returns — for every world. -/
+theorem memo_transparent (w : World) (hs : List Query) (q : Query)
+    (hsafe : ∀ q' ∈ hs, q'.keySafe) (hq : q.keySafe) :
+    (runQuery w (runQueriesM w {} hs) q).2 = evalPure w q :=
+  (runQuery_spec w _ q (runQueriesM_ok w {} hs (memoOk_init w) hsafe) hq).1
+
+example :
+    let hs : List Query := [.children ['r'], .siblings "r.a[2].b".toList, .parent "r.a[2].b".toList, .children ['r'],
+      .ancestor "r.a[2].b".toList ['z'], .expand ['r'], .values ['r']]
+    (∀ q' ∈ hs, q'.keySafe) ∧
+    ((runQuery (worldOf sample [['a']]) (runQueriesM (worldOf sample [['a']]) {} hs) (.children ['r'])).2.toOption).isSome = true ∧
+    (runQueriesM (worldOf sample [['a']]) {} hs).memo.length = 5 := by
+  decide +kernel
+
+/-- `memo_transparent` without the side condition on `#`. -/
+def memo_transparent_unconditional_statement : Prop :=
+  ∀ (w : World) (hs : List Query) (q : Query), (runQuery w (runQueriesM w {} hs) q).2 = evalPure w q
+
+/-- tags `a` and `a#b`: `ancestor('r.a', 'b#r')` (fails: no such tag) and `ancestor('r.a#b', 'r')` share the key
+    `ancestor.r.a#b#r`; the slot keeps the first factory, so the second query fails too instead of returning `r`.
+    Latent: no lark rule or terminal name contains `#`. -/
+def memoKeyWitness : Entry := .tree ['r'] [.token ['a'] ['1'], .token ['a', '#', 'b'] ['2']]
+
+theorem memo_key_counterexample : ¬ memo_transparent_unconditional_statement := by
+  intro hs
+  have := hs (worldOf memoKeyWitness [['r']]) [.ancestor "r.a".toList "b#r".toList] (.ancestor "r.a#b".toList ['r'])
+  have := congrArg Except.toOption this
+  revert this
+  decide +kernel
+
+example : (evalPure (worldOf memoKeyWitness [['r']]) (.ancestor "r.a#b".toList ['r'])).toOption
+    = some (.nodes [(['r'], ['K'])]) := by
+  decide +kernel
+
+/-! ## the `EntryPath` algebra on encoded paths
+
+`EP.*` are `EntryPath.identify / first / last / shift / joined / parent_tag / contains / consists_of_only` on strings; on the
+encoding of a well-formed element path each is the corresponding list operation. -/
+
+/-- `identify` then `last` (`__break_tag`) gives tag and index back — for EVERY index, of any number of digits. -/
+theorem break_tag_join (p : Path) (tag : Str) (i : Nat) (hp : WfPath p) (ht : WfTag tag) :
+    EP.last (EP.identify (encodePath p) tag (i : Int)) = .ok (tag, (i : Int)) := by
+  rw [EP.identify_encode p tag i hp ht]
+  exact EP.last_encode p ⟨tag, some i⟩ (wfPath_snoc p _ hp ht)
+
+example : (EP.last (EP.identify ['r'] ['a'] 1207)).toOption = some (['a'], 1207) := by decide +kernel
+
+/-- `first` / `last`: tag and index (`-1` = none) of the first / last element. -/
+theorem path_first_last (a : Elem) (p : Path) (b : Elem) (hp : WfPath (a :: p ++ [b])) :
+    EP.first (encodePath (a :: p ++ [b])) = .ok (a.tag, a.idxInt) ∧
+    EP.last (encodePath (a :: p ++ [b])) = .ok (b.tag, b.idxInt) :=
+  ⟨EP.first_encode a (p ++ [b]) hp, EP.last_encode (a :: p) b hp⟩
+
+/-- `shift(k)` drops `k` leading elements, `shift(-k)` the last `k` (clamped like a Python slice). -/
+theorem path_shift (p : Path) (hp : WfPath p) (k : Nat) :
+    EP.shift (encodePath p) (k : Int) = encodePath (p.drop k) ∧
+    EP.shift (encodePath p) (-((k + 1 : Nat) : Int)) = encodePath (p.take (p.length - (k + 1))) :=
+  ⟨EP.shift_encode_pos p hp k, EP.shift_encode_neg p hp k⟩
+
+/-- `joined` concatenates element lists. -/
+theorem path_joined (p r : Path) (hp : WfPath p) (hr : WfPath r) :
+    EP.joined (encodePath p) (encodePath r) = encodePath (p ++ r) :=
+  EP.joined_encode p r hp hr
+
+/-- `parent_tag` is the tag of the last but one element. -/
+theorem path_parent_tag (p : Path) (a b : Elem) (hp : WfPath (p ++ [a, b])) :
+    EP.parentTag (encodePath (p ++ [a, b])) = .ok a.tag :=
+  EP.parentTag_encode p a b hp
+
+/-- `contains(tag)` / `consists_of_only(*tags)` speak about the tags of the elements (indices ignored). -/
+theorem path_contains (p : Path) (hp : WfPath p) (t : Str) (ts : List Str) :
+    (EP.contains (encodePath p) t = true ↔ ∃ el ∈ p, el.tag = t) ∧
+    (EP.consistsOfOnly (encodePath p) ts = true ↔ ∀ el ∈ p, el.tag ∈ ts) :=
+  ⟨EP.contains_encode p hp t, EP.consistsOfOnly_encode p hp ts⟩
+
+example : WfPath [⟨['r'], none⟩, ⟨['a'], some 12⟩, ⟨['b'], none⟩] ∧
+    EP.shift "r.a[12].b".toList (-1) = "r.a[12]".toList ∧ EP.shift "r.a[12].b".toList 2 = ['b'] ∧
+    EP.contains "r.a[12].b".toList ['a'] = true ∧ (EP.parentTag "r.a[12].b".toList).toOption = some ['a'] := by
+  refine ⟨?_, by decide +kernel⟩
+  intro el hel
+  simp at hel
+  rcases hel with rfl | rfl | rfl <;> decide
+
 end Tranp.C10
